@@ -102,6 +102,10 @@ func hasEncryptedContent(f *zip.File) (bool, error) {
 // isFontObfuscation returns true if the algorithm is a font obfuscation method.
 // Font obfuscation is not DRM - it's just to prevent casual font extraction.
 func isFontObfuscation(algorithm string) bool {
+	// The algorithm identifiers of the IDPF (EPUB OCF) and Adobe font obfuscation schemes
+	if algorithm == "http://www.idpf.org/2008/embedding" || algorithm == "http://ns.adobe.com/pdf/enc#RC" {
+		return true
+	}
 	// Adobe font obfuscation
 	if strings.Contains(algorithm, "adobe.com") && strings.Contains(algorithm, "obfuscation") {
 		return true
